@@ -23,6 +23,18 @@ theorem errorReply_ok (s : St) (st : Nat) (wf : ChunkWF s) (hr : 4 < rank s.stat
   · exact ⟨wf, by simp only [measure, r0, List.length_nil]; omega⟩
   · exact ⟨wf, by simp only [measure, r4, List.length_nil]; omega⟩
 
+theorem refuseWith_ok (s : St) (x : Option Nat) (wf : ChunkWF s) (hm : 4 < measure s) : StepOK s (refuseWith s x) := by
+  have r0 : rank CState.closed = 0 := rfl
+  have r4 : rank CState.fullReplySent = 4 := rfl
+  cases x with
+  | none => exact ⟨wf, by simp only [refuseWith, measure, r0, List.length_nil] at hm ⊢; omega⟩
+  | some st =>
+    show StepOK s (errorReply s st)
+    unfold errorReply StepOK
+    by_cases he : s.stopErr = true
+    · rw [if_pos he]; exact ⟨wf, by simp only [measure, r0, List.length_nil] at hm ⊢; omega⟩
+    · rw [if_neg he]; exact ⟨wf, by simp only [measure, r4, List.length_nil] at hm ⊢; omega⟩
+
 theorem bodyStep_ok (lvl : Int) (s s' : St) (h : bodyStep lvl s = some s') (wf : ChunkWF s)
     (hs : s.state = .bodyReceiving) (hrem : s.remaining ≠ 0) : StepOK s s' := by
   unfold bodyStep at h
@@ -74,6 +86,12 @@ theorem step_ok (lvl : Int) (app : App) (s s' : St) (h : idleStep lvl app s = so
     cases hp : P.head s.buf with
     | incomplete => simp [hp] at h
     | bad => simp only [hp] at h; cases h; exact ⟨wf, by simp [measure, rank, hs]⟩
+    | refuse x =>
+      simp only [hp] at h; cases h
+      apply refuseWith_ok s x wf
+      cases hb : s.buf with
+      | nil => rw [hb, L.head_nil] at hp; cases hp
+      | cons c t => simp only [measure, hb, List.length_cons, hs, rank]; omega
     | ok hd rest =>
       simp only [hp] at h; cases h
       have := L.head_length _ _ _ hp
@@ -103,6 +121,9 @@ theorem step_ok (lvl : Int) (app : App) (s s' : St) (h : idleStep lvl app s = so
     cases hp : P.trailers s.buf with
     | incomplete => simp [hp] at h
     | bad => simp only [hp] at h; cases h; exact ⟨wf, by simp [measure, rank, hs]⟩
+    | refuse x =>
+      simp only [hp] at h; cases h
+      exact refuseWith_ok s x wf (by simp only [measure, hs, rank]; omega)
     | ok fs rest =>
       simp only [hp] at h; cases h
       have := L.trailers_length _ _ _ hp
